@@ -152,6 +152,13 @@ def evaluate(ctx, cases):
                 forms["text"] = lambda: txt
                 forms["StringIO"] = lambda: io.StringIO(txt)
                 forms["BytesIO"] = lambda: io.BytesIO(txt.encode())
+                # JSON text may begin and end with blanks; bytes may carry a BOM or be UTF-16 (the encodings json.loads detects)
+                pad = ctx.rng.choice(["\n  ", " ", "\t\r\n", "\n"])
+                forms["text (blank-padded)"] = lambda: pad + json.dumps(doc, indent=ctx.rng.choice([None, 1])) + "\n"
+                forms["StringIO (blank-padded)"] = lambda: io.StringIO(pad + txt + " \n")
+                if ctx.rng.random() < 0.5:
+                    forms["BytesIO (UTF-8 with BOM)"] = lambda: io.BytesIO(b"\xef\xbb\xbf" + txt.encode("utf-8"))
+                    forms["BytesIO (UTF-16)"] = lambda: io.BytesIO(txt.encode("utf-16"))
 
             async def aall(fn, d):
                 return await fn(d)
